@@ -2,3 +2,4 @@ SPECIFICATION Spec
 INVARIANT KeyMergeReport
 CHECK_DEADLOCK FALSE
 CONSTANT KeyMergesWsIntoHttp = TRUE
+CONSTANT SetterDropsTls = FALSE
